@@ -11,12 +11,12 @@ T == ndJsonDeserialize(IOEnv.TRACE)
 Progress(n) == IF n > TLCGet(2) THEN TLCSet(2, n) ELSE TRUE
 
 \* split "op:result"
-OpOf(v) == CASE \E o \in {"l","t","f","s","y","g","u","r","n","N","z","j"} : v = o \o ":1" -> (CHOOSE o \in {"l","t","f","s","y","g","u","r","n","N","z","j"} : v = o \o ":1")
+OpOf(v) == CASE \E o \in {"l","t","f","s","y","g","u","r","n","N","z","j","W","F"} : v = o \o ":1" -> (CHOOSE o \in {"l","t","f","s","y","g","u","r","n","N","z","j","W","F"} : v = o \o ":1")
              [] \E o \in {"t","f","y","g"} : v = o \o ":0" -> (CHOOSE o \in {"t","f","y","g"} : v = o \o ":0")
              [] v \in {"w:timeout", "w:no_timeout"} -> "w"
              [] v \in {"x:ok", "x:bad"} -> "x"
              [] OTHER -> "?"
-ResOf(v) == CASE \E o \in {"l","t","f","s","y","g","u","r","n","N","z","j"} : v = o \o ":1" -> "1"
+ResOf(v) == CASE \E o \in {"l","t","f","s","y","g","u","r","n","N","z","j","W","F"} : v = o \o ":1" -> "1"
               [] \E o \in {"t","f","y","g"} : v = o \o ":0" -> "0"
               [] v = "w:timeout" -> "timeout" [] v = "w:no_timeout" -> "no_timeout"
               [] v = "x:ok" -> "ok" [] v = "x:bad" -> "bad"
